@@ -148,21 +148,21 @@ func check(c Case) error {
 		}
 		seen[id]++
 	}
+	wantCount := map[int]int{}
 	for _, p := range live {
-		if seen[p.ID] != 1 {
-			return fail("the pair with value id %d is rendered %d times", p.ID, seen[p.ID])
+		wantCount[p.ID]++
+	}
+	for id, n := range wantCount {
+		if seen[id] != n {
+			return fail("%d pairs carry the value id %d, %d are rendered", n, id, seen[id])
 		}
 	}
 	// each value is attached to its own key: compare with the key rendered alone in the same position of an identical file
 	for _, p := range live {
-		var e *elem
 		for i := range rawEl {
-			if valueHasID(rawEl[i].val, p.ID) {
-				e = &rawEl[i]
+			if valueHasID(rawEl[i].val, p.ID) && !keyMatches(p, rawEl[i].key) {
+				return fail("value id %d is attached to key %q, which is not the rendering of its key %s", p.ID, rawEl[i].key, recipe.JSON(p.Key))
 			}
-		}
-		if !keyMatches(p, e.key) {
-			return fail("value id %d is attached to key %q, which is not the rendering of its key %s", p.ID, e.key, recipe.JSON(p.Key))
 		}
 	}
 	// order: raw key texts non-decreasing
@@ -306,7 +306,7 @@ var idents = []string{"a", "ab", "abc", "b", "B", "_x", "x", "x1", "x10", "x2", 
 var strs = []string{"", "a", "ab", "a b", "a\"b", "b", "A", "a\n", "日本", "a.b", "a[1]"}
 
 func genKey(t *rapid.T, depth int) *recipe.Node {
-	switch rapid.IntRange(0, 9).Draw(t, "keykind") {
+	switch rapid.IntRange(0, 10).Draw(t, "keykind") {
 	case 0, 1:
 		return recipe.Id(rapid.SampledFrom(idents).Draw(t, "id"))
 	case 2:
@@ -331,6 +331,16 @@ func genKey(t *rapid.T, depth int) *recipe.Node {
 		return recipe.Qual(p, rapid.SampledFrom([]string{"X", "Y", "A"}).Draw(t, "sym"))
 	case 8:
 		return recipe.S().C("LitRune", recipe.Rune(rapid.SampledFrom([]rune{'a', 'b', '\n', '日', '\''}).Draw(t, "rune")))
+	case 9: // composite key whose body is itself a Dict: Circle{R: 2}
+		name := rapid.SampledFrom([]string{"Circle", "Square", "Box", "A"}).Draw(t, "ckname")
+		var pairs []recipe.Pair
+		for i := rapid.IntRange(1, 2).Draw(t, "ckfields"); i > 0; i-- {
+			pairs = append(pairs, recipe.Pair{K: recipe.Id(rapid.SampledFrom([]string{"R", "A", "Z", "W"}).Draw(t, "ckfield")), V: recipe.Lit(rapid.IntRange(0, 3).Draw(t, "ckval"))})
+		}
+		if len(pairs) == 2 && recipe.JSON(pairs[0].K) == recipe.JSON(pairs[1].K) {
+			pairs = pairs[:1]
+		}
+		return recipe.Id(name).C("Values", recipe.Dict(pairs...))
 	default: // composite key
 		return recipe.Id("K").C("Values", recipe.Lit(rapid.IntRange(0, 3).Draw(t, "ck")))
 	}
@@ -377,6 +387,11 @@ func genCase(t *rapid.T) Case {
 			p.Val = recipe.S().C("List")
 		}
 		c.Pairs = append(c.Pairs, p)
+		if !p.KeyNull && !p.ValNull && rapid.IntRange(0, 7).Draw(t, "identical") == 0 {
+			// a second, distinct pair that renders identically in key AND value (legal for
+			// non-constant keys): both must be rendered
+			c.Pairs = append(c.Pairs, PairSpec{Key: p.Key.Clone(), Val: p.Val.Clone(), ID: p.ID})
+		}
 	}
 	// two null keys would be two distinct map keys; fine. But the builder maps a nil key to Null().
 	return c
@@ -420,6 +435,16 @@ func classify(r *hx.Run, c Case) {
 	mark := func(b bool, name string) {
 		if b {
 			r.Class(name)
+		}
+	}
+	ids := map[int]int{}
+	for _, p := range live {
+		ids[p.ID]++
+	}
+	for _, n := range ids {
+		if n > 1 {
+			r.Class("identical_pairs")
+			break
 		}
 	}
 	mark(dup, "duplicate_key_text")
